@@ -546,10 +546,26 @@ def opMotion (req : Json) : Json :=
 def opWord (req : Json) : Json :=
   let cls : List Nat := (jarr req "cls").toList.map (fun x => x.getNat?.toOption.getD 3)
   let k? : Option WKind := match jstr req "kind" with
-    | "startFwd" => some .startFwd | "endFwd" => some .endFwd | "startBwd" => some .startBwd | _ => none
+    | "startFwd" => some .startFwd | "endFwd" => some .endFwd | "startBwd" => some .startBwd | "endBwd" => some .endBwd | _ => none
   match k? with
   | none => Json.mkObj [("err", "word motion not modelled")]
-  | some k => Json.mkObj [("mk", mkJson (evalWord ⟨cls⟩ (jnat req "cur") k (jbool req "big") (jnat req "count") (jbool req "change")))]
+  | some k => Json.mkObj [("mk", mkJson (evalWord ⟨cls⟩ (jnat req "cur") k (jbool req "big") (jnat req "count") (jbool req "change") (jbool req "selecting")))]
+
+/-- `{"op":"charsearch","gs":[..],"cur":n,"excl":b,"fwd":b,"before":b,"ch":g,"count":n}` -/
+def opCharSearch (req : Json) : Json :=
+  Json.mkObj [("mk", mkJson (evalCharSearch (gsOf req) (jnat req "cur") (jbool req "excl") (jbool req "fwd") (jbool req "before")
+    (jstr req "ch").toList (jnat req "count")))]
+
+/-- `{"op":"cursor_after","gs":[..],"cur":n,"excl":b,"mk":[..],"saved_col":n|null}` -/
+def opCursorAfter (req : Json) : Json :=
+  let s : MS := ⟨gsOf req, jnat req "cur", jbool req "excl", false, []⟩
+  let sc : Option Nat := (req.getObjValAs? Nat "saved_col").toOption
+  Json.mkObj [("cur", cursorAfterMotion s (mkOf ((req.getObjVal? "mk").toOption.getD Json.null)) sc)]
+
+/-- `{"op":"textobj_word","cls":[..],"cur":n,"big":b,"around":b}` -/
+def opTextObjWord (req : Json) : Json :=
+  let cls : List Nat := (jarr req "cls").toList.map (fun x => x.getNat?.toOption.getD 3)
+  Json.mkObj [("mk", mkJson (evalTextObjWord ⟨cls⟩ (jnat req "cur") (jbool req "big") (jbool req "around")))]
 
 def dispatch (req : Json) : Json :=
   match jstr req "op" with
@@ -572,6 +588,9 @@ def dispatch (req : Json) : Json :=
   | "vimspec" => opVimSpec req
   | "motion" => opMotion req
   | "word" => opWord req
+  | "charsearch" => opCharSearch req
+  | "cursor_after" => opCursorAfter req
+  | "textobj_word" => opTextObjWord req
   | op => Json.mkObj [("err", Json.str s!"unknown op {op}")]
 
 partial def loop (h : IO.FS.Stream) (out : IO.FS.Stream) : IO Unit := do
